@@ -168,7 +168,7 @@ Definition sworld_step (w : sworld) (e : event) : sworld :=
       (* the hand-off: the most recent requester gets the line, every earlier one a failure *)
       match sw_istack w with
       | top :: rest =>
-        w <| sw_handoff := (top, true, sw_line w) :: map (fun r => (r, false, [])) (rev rest) |>
+        w <| sw_handoff := sw_handoff w ++ (top, true, sw_line w) :: map (fun r => (r, false, [])) (rev rest) |>
           <| sw_istack := [] |> <| sw_processing := false |>
       | [] => w
       end
